@@ -77,6 +77,31 @@ func checkC03(c *Ctx) {
 	c.c03Replies(m, t)
 	c.c03Greeting(m, t)
 	c.c03Index(m)
+	// a command that is refused opens nothing: once MAIL (or DATA) has been entered, the reply
+	// the client gets for that command is not a refusal. A MAIL answered 501 that has already
+	// set the sender and the state leaves a transaction open that the client was told does not
+	// exist — RCPT and DATA then go through with the refused sender
+	r.Rule("C03/TS/refused-opens-nothing", "after enterState(MAIL) or enterState(DATA) the first reply of the command is not a 4xx/5xx refusal (followed through helper returns)")
+	nEnt := 0
+	ordE := map[string]int{}
+	for _, fn := range m.fns {
+		fn := fn
+		eng.EachInstr(fn, func(in ssa.Instruction) {
+			for _, stName := range []string{"MAIL", "DATA"} {
+				if !m.entersState(stName)(in) {
+					continue
+				}
+				nEnt++
+				cons := siteCons(c.P, in, ordE, "enter-"+stName)
+				if bad := c.firstReplyRefusal(m, in); bad != nil {
+					r.Bad("C03/TS/refused-opens-nothing", cons, c.P.InstrPos(in), "state %s is entered here and the command can still be answered with the refusal at %s: the client is told the command failed while the session goes on as if it had succeeded", stName, c.P.InstrPos(bad))
+				} else {
+					r.Ok("C03/TS/refused-opens-nothing", cons, c.P.InstrPos(in), "no refusal reply is reachable after the state is entered")
+				}
+			}
+		})
+	}
+	r.Floor("C03/TS/refused-opens-nothing", "enterState(MAIL/DATA) sites", nEnt, 2)
 	r.Floor("C03/SESSION/own-connection", "go statements in loops of the SMTP server package", c.ownConnection("C03/SESSION/own-connection", "pkg/server/smtp"), 1)
 	// one command line is one read: a reader primitive that hands out a long line in pieces
 	// must be re-assembled, or the tail of the line is executed as further commands
